@@ -364,6 +364,48 @@ def shrink_candidates(c):
             yield {"cfg": c["cfg"], "events": ev[:i] + ev[i + 1:]}
 
 
+# ---------------------------------------------------------------- long-lived graceful restart: a second loss during the long-lived period (oracle only)
+def llgr_case(rng):
+    return {"r": rng.choice([1, 3]), "l": rng.choice([30, 60]), "second": rng.choice(["session-lost-again", "session-lost-again", "none", "eor-then-lost"]),
+            "pfx": rng.sample(["10.1.0.0/24", "10.2.0.0/24", "10.3.0.0/16"], rng.choice([1, 2]))}
+
+
+def llgr_line(c):
+    steps = ["(up a gr=%d llgr=%d)" % (c["r"], c["l"]), "(up b)"]
+    for pf in c["pfx"]:
+        steps.append("(upd a (a %s 0 (65001) - - 0 () - ()))" % pf)
+    steps += ["(eor a)", "(close a)", "(sleep %d)" % (c["r"] + 2), "(obs)"]
+    if c["second"] != "none":
+        steps.append("(up a gr=%dr llgr=%d)" % (c["r"], c["l"]))
+        if c["second"] == "eor-then-lost":
+            for pf in c["pfx"]:
+                steps.append("(upd a (a %s 0 (65001) - - 0 () - ()))" % pf)
+            steps.append("(eor a)")
+        steps += ["(close a)", "(sleep %d)" % (c["r"] + 2)]
+    else:
+        steps.append("(sleep 3)")
+    steps += ["(obs)", "(sleep %d)" % (c["l"] + c["r"] + 10), "(obs)"]
+    return "(sim (global 65000 1.1.1.1 sync) (peers (a 10.0.0.1 65001 gr=120 llgr=%d) (b 10.0.0.2 65002)) (steps %s))" % (c["l"], " ".join(steps))
+
+
+def llgr_oracle(c, out):
+    r = simlib.split_output(out)
+    if r is None or len(r[0]) != 3:
+        return ("harness-error", "the scenario did not complete: " + out[:300])
+    o1, o2, o3 = r[0]
+
+    def held(o):
+        return {pf for pf, ps in o["rib"].items() if any(p["src"] == "10.0.0.1" for p in ps)}
+    want = set(c["pfx"])
+    if held(o1) != want:
+        return ("llgr-routes-not-retained", "after the restart time ran out the routes of the peer must be kept for the long-lived stale time (%d s): held %s, announced %s" % (c["l"], sorted(held(o1)), sorted(want)))
+    if held(o2) != want:
+        return ("llgr-routes-dropped-before-the-long-lived-timer", "%s during the long-lived stale period (%d s, %d s gone): held %s, retained before %s" % (c["second"], c["l"], 2 * c["r"] + 4, sorted(held(o2)), sorted(want)))
+    if c["second"] != "eor-then-lost" and held(o3):
+        return ("llgr-routes-kept-after-the-long-lived-timer", "the long-lived stale time (%d s) is over and the peer has not come back with End-of-RIB: still held %s" % (c["l"], sorted(held(o3))))
+    return None
+
+
 def run(ctx):
     proof = core.coq_properties("C12")
     ctx.say("proof stage: ok=%s theorems=%d audit=%d (%.1fs)" % (proof["ok"], len(proof["theorems"]), len(proof["audit"]), proof.get("wall_s", 0)))
@@ -380,11 +422,16 @@ def run(ctx):
                              model_line_of=lambda c: model_line({"cfg": {"gr": True, "notif": False, "local_rt": 120}, "events": [("obs",)]}),
                              correspondence_name="handleFSMMessage (Established / End-of-RIB with LocalRestarting, deferral timer) on a restarting speaker; oracle: RFC 4724 4.1 as the property words it",
                              impl_spec=IMPL_SPEC, model_name="gr")
+    lcases = [llgr_case(ctx.rng) for _ in range(ctx.scale(120, 1200))]
+    cov3 = core.differential(ctx, "gr", proof, lcases, llgr_line, llgr_oracle, model_applies=lambda c: False, nontrivial=lambda c: True,
+                             model_line_of=lambda c: model_line({"cfg": {"gr": True, "notif": False, "local_rt": 120}, "events": [("obs",)]}),
+                             correspondence_name="long-lived graceful restart on a running server: routes kept for the long-lived stale time whatever happens to the session meanwhile (oracle: RFC 9494 timers)",
+                             impl_spec=IMPL_SPEC, model_name="gr")
     for kk in ("evaluations", "distinct_nontrivial", "traces_validated_against_impl"):
-        cov[kk] = cov.get(kk, 0) + cov2.get(kk, 0)
+        cov[kk] = cov.get(kk, 0) + cov2.get(kk, 0) + cov3.get(kk, 0)
     pc = core.proof_coverage(proof)
     pc.update(cov)
-    evc = {"restarting-speaker-scenarios": len(rcases)}
+    evc = {"restarting-speaker-scenarios": len(rcases), "long-lived-graceful-restart-scenarios": len(lcases)}
     for c in cases:
         for e in c["events"]:
             k = e[0] + ("-" + e[1] if e[0] == "loss" else "")
